@@ -491,9 +491,21 @@ fn kind(e: &VaporettoError) -> &'static str {
     }
 }
 
-fn convert(bytes: &[u8]) -> String {
+/// hands out at most 5 bytes per call (readers must cope with short reads)
+struct ShortReads<'a>(&'a [u8]);
+
+impl std::io::Read for ShortReads<'_> {
+    fn read(&mut self, buf: &mut [u8]) -> std::io::Result<usize> {
+        let n = buf.len().min(self.0.len()).min(5);
+        buf[..n].copy_from_slice(&self.0[..n]);
+        self.0 = &self.0[n..];
+        Ok(n)
+    }
+}
+
+fn convert_with<R: std::io::BufRead>(rdr: R) -> String {
     match catch(|| {
-        let km = KyteaModel::read(&mut &bytes[..])?;
+        let km = KyteaModel::read(rdr)?;
         let m = Model::try_from(km)?;
         m.to_vec()
     }) {
@@ -501,6 +513,16 @@ fn convert(bytes: &[u8]) -> String {
         Ok(Err(e)) => format!("err:{}", kind(&e)),
         Err(_) => "panic".into(),
     }
+}
+
+fn convert(bytes: &[u8]) -> String {
+    convert_with(&mut &bytes[..])
+}
+
+/// the same file through buffered readers whose refills fall at every kind of offset: a 16-byte and a 7-byte buffer over
+/// short reads (what `BufReader<File>` does to a real, large model every 8 KiB)
+fn convert_chunked(bytes: &[u8]) -> Vec<String> {
+    [16usize, 7].iter().map(|&cap| convert_with(std::io::BufReader::with_capacity(cap, ShortReads(bytes)))).collect()
 }
 
 pub fn run(toks: &[&str], fails: &mut Vec<(String, String)>) -> String {
@@ -516,6 +538,11 @@ pub fn run(toks: &[&str], fails: &mut Vec<(String, String)>) -> String {
             let n = if *cut == "full" { full.len() } else { cut.parse::<usize>().unwrap_or(0).min(full.len()) };
             let r = convert(&full[..n]);
             if c17 {
+                for (k, alt) in convert_chunked(&full[..n]).into_iter().enumerate() {
+                    if alt != r && !(alt.starts_with("err:") && r.starts_with("err:")) {
+                        fails.push(("C17".into(), format!("the file read through a small buffered reader (variant {k}) converts to {}, read from a slice to {}", &alt[..alt.len().min(60)], &r[..r.len().min(60)])));
+                    }
+                }
                 if n == full.len() {
                     match k.expected() {
                         Ok(exp) => {
@@ -542,6 +569,13 @@ pub fn run(toks: &[&str], fails: &mut Vec<(String, String)>) -> String {
             let Some(full) = unhex(h) else { return "bad-case".into() };
             let n = if *cut == "full" { full.len() } else { cut.parse::<usize>().unwrap_or(0).min(full.len()) };
             let r = convert(&full[..n]);
+            if c17 {
+                for (k, alt) in convert_chunked(&full[..n]).into_iter().enumerate() {
+                    if alt != r && !(alt.starts_with("err:") && r.starts_with("err:")) {
+                        fails.push(("C17".into(), format!("the file read through a small buffered reader (variant {k}) converts to {}, read from a slice to {}", &alt[..alt.len().min(60)], &r[..r.len().min(60)])));
+                    }
+                }
+            }
             // optional expected result (files whose ignored parts carry content): KYX <hex> full <expected> c17
             if let (true, [_, _, _, exp, _]) = (c17 && n == full.len(), toks) {
                 if *exp != "-" && r != *exp {
